@@ -3,8 +3,8 @@ open Drv_common
 
 (* ---------- kind: reuse (C06) ----------
    case: <id> idle=<ms> resp=<ms> h=<ev,ev,...>   (see harness/cmd/implrun/c06.go)
-   The history is run through Reuse.run_history (deterministic big-step, a schedule of the LTS). *)
-let parse_event (s : string) : event =
+   The history is run through Reuse.run_history (deterministic big-ru_step, a schedule of the LTS). *)
+let parse_event (s : string) : event_ru =
   let num () = nat_of_int (int_of_string (String.sub s 1 (String.length s - 1))) in
   match s with
   | "S" -> EStart false
@@ -20,7 +20,7 @@ let parse_event (s : string) : event =
      | 'H' -> EReplyHalf (num ())
      | 'T' -> EReplyRest (num ())
      | 'A' -> EAbort (num ())
-     | _ -> failwith ("bad event " ^ s))
+     | _ -> failwith ("bad event_ru " ^ s))
 
 let run_reuse (parts : string list) : string =
   let f = fields parts in
@@ -42,7 +42,7 @@ let run_reuse (parts : string list) : string =
       Printf.sprintf "x=%s dials=%d idle=%d conns=%d maxout=%d dirty=%d || spec=%s" xs
         (int_of_nat (nconn s)) (int_of_nat (obs_idle s)) (int_of_nat (obs_conns s))
         (int_of_nat (obs_maxout s)) (b2i (obs_dirty s))
-        (if spec_ok s then "ok" else "FAIL:model-state-violates-C06-oracle")
+        (if spec_ok s then "ok" else "FAIL:model-state_ru-violates-C06-oracle")
     end
 
 let () = register "reuse" run_reuse
